@@ -114,8 +114,10 @@ def cases(desc):
         for via in ("data", "raw", "write-fn", "var-open", "var-open-nosize"):
             variants.append({"dir": "down", "path": "variable", "via": via})
         for via in ("data", "raw", "read-fn", "var-open"):
-            variants.append({"dir": "up", "path": "variable", "via": via,
-                             "style": {"upload_size_indicated": True, "expedited_upload": True, "expedited_size_indicated": True}})
+            for size_ind, exp_size in ((True, True), (False, True), (False, False)):
+                # entries the dictionary declares as DOMAIN / OCTET_STRING: whatever the server indicates, the bytes are the value
+                variants.append({"dir": "up", "path": "variable", "via": via,
+                                 "style": {"upload_size_indicated": size_ind, "expedited_upload": True, "expedited_size_indicated": exp_size}})
         # ---- uploads
         for size_ind in (True, False):
             for exp in (True, False):
@@ -377,6 +379,8 @@ def do_upload_setup(rig, c, index, sub):
         width = R.width(dt) // 8
         return value, value[:width]
     value = ascii_payload(n, c["seed"]).encode("ascii") if c["path"] == "text" else payload(n, c["seed"])
+    if c["path"] == "variable" and n and c["seed"] % 3 == 0:
+        value = value[:-1] + b"\x00"             # values may end in zero bytes; they are data, not padding
     if not srv.expedited_size_indicated and srv.expedited_upload and 1 <= n < 4:
         # expedited without size indication carries 4 bytes: only 4-byte values are unambiguous
         srv.expedited_size_indicated = True
